@@ -156,6 +156,7 @@ def run_paths(prop, tier):
 
 def replay_paths(prop, path):
     out = C.Outcome(prop, "quick")
+    out.no_evidence = True
     wd = C.workdir("xpr" + prop)
     try:
         v = json.load(open(path))
